@@ -11,7 +11,8 @@ if [ "$1" = "-e" ]; then
   if diff -q "$S/$3" "/repo/$3" >/dev/null; then echo "mut.sh: sed changed nothing" >&2; exit 3; fi
   shift 3
 else
-  (cd "$S" && patch -p1 -s --no-backup-if-mismatch < "$1") || { echo "mut.sh: patch failed" >&2; exit 3; }
+  P=$(readlink -f "$1")
+  (cd "$S" && patch -p1 -s --no-backup-if-mismatch < "$P") || { echo "mut.sh: patch failed" >&2; exit 3; }
   shift 1
 fi
 VERIF_REPO="$S" "$VERIF/check" "$@"
